@@ -1,4 +1,5 @@
 import sys,re
+# unmarshalMap: the map is only made when nil (entries of earlier rows stay)
 p=sys.argv[1]+'/marshal.go'; s=open(p).read()
 m=re.search(r"\trv\.Set\(reflect\.MakeMapWithSize\(t, n\)\)", s)
 assert m
